@@ -28,14 +28,21 @@ def srcFacts : Facts := factsOf FactsC12.decodeUsesPointerNum FactsC12.nilChainR
     the two `init` functions, the decode dispatch order, the use of PointerNum in every
     decode branch, the NilElemPointerNum bookkeeping, and the registry discipline of
     `GenericRegister` / `RegisterSerializableType` (a key, a type registered at most once, no
-    empty key) that makes every registry the code can build satisfy `Ctx.ok`. -/
+    empty key) that makes every registry the code can build satisfy `Ctx.ok`; and three facts
+    about the shape of the walk: the encoder is a stateless recursion over the reflect tree
+    (the model's `enc` is structural; shared pointers: `marshalL`), it names a type by
+    `rm[<exact type>]` only (`keyOf`), and the map decoder decodes every key text into a key of
+    its own (`placeKVs`). -/
 theorem facts_match :
     FactsC12.registry = registry ∧ FactsC12.composeRegistry = composeRegistry
     ∧ FactsC12.decodeDispatch = decodeDispatch
     ∧ FactsC12.decodeUsesPointerNum = decodeUsesPointerNum
     ∧ FactsC12.nilChainRecorded = nilChainRecorded
     ∧ FactsC12.registerForwards = true ∧ FactsC12.registerRejectsDuplicates = true
-    ∧ FactsC12.registerRejectsEmptyKey = true := by
+    ∧ FactsC12.registerRejectsEmptyKey = true
+    ∧ FactsC12.encodeWalkStateless = encodeWalkStateless
+    ∧ FactsC12.typeKeysByExactType = typeKeysByExactType
+    ∧ FactsC12.mapKeyFreshPerEntry = mapKeyFreshPerEntry := by
   decide
 
 /-- every decode branch applies `resolvePointerNum(v.PointerNum, …)` and nil pointers inside
@@ -114,6 +121,49 @@ theorem written_is_readable (ctx : Ctx) (J : JLayer) (hc : ctx.ok = true) (hJ : 
   have hne := encP_not_absent ctx J Fall v 0 is (wt_not_inil hw) he
   exact ⟨v', by rw [unmarshalTop_of_ne hne]; exact hd⟩
 
+/-- **only registered types are written.**  Whatever `Marshal` accepts, every type it had to
+    name on the way — the dynamic type of every (named) basic value at any position (top
+    level, field, `any` position, slice element, map value, behind pointers), every struct
+    type, element / key / value types of containers, targets of nil pointers — is in the
+    registry as that very type (`keyOf ctx t`, the model of `rm[t]`).  Contrapositive: a value
+    that mentions an unregistered type, e.g. a defined type over a basic kind that was never
+    passed to `GenericRegister`, is refused — it is never written under the key of another
+    type. -/
+theorem accepted_only_registered (ctx : Ctx) (J : JLayer) (v : GoVal) (is : IS)
+    (he : enc ctx J srcFacts v = .ok is) : v.regd ctx = true :=
+  encP_regd ctx J srcFacts v 0 is he
+
+/-- an unregistered (named) basic type is answered with "unknown type", whatever its kind
+    and whether or not the builtin type of that kind is registered -/
+theorem unregistered_basic_rejected (ctx : Ctx) (J : JLayer) (F : Facts) (t : GoTy) (p : Payload) (k : Nat)
+    (h : keyOf ctx t = none) : encP ctx J F k (.basic t p) = .error .unknownType := by
+  simp [encP, keyOfE, h, bind, Except.bind]
+
+/-- **"no value" only for the nil interface.**  The encoder writes a nil `*internalStruct`
+    ("no value": decoded as the zero value of the slot, a nil pointer / nil interface) for the
+    nil interface value and for nothing else — in particular for no non-nil pointer, wherever
+    else the same pointer may occur in the value. -/
+theorem no_value_only_for_nil_interface (ctx : Ctx) (J : JLayer) (v : GoVal)
+    (h : enc ctx J srcFacts v = .ok .absent) : v = .inil :=
+  encP_absent_inil ctx J srcFacts v 0 h
+
+/-- **shared pointers are written like copies.**  Two values that unfold to the same tree
+    are written identically, however their pointers are shared. -/
+theorem shared_like_copies (ctx : Ctx) (J : JLayer) (v w : LVal) (h : v.erase = w.erase) :
+    marshalL ctx J srcFacts v = marshalL ctx J srcFacts w := by
+  unfold marshalL; rw [h]
+
+/-- **round trip of a value with shared pointers.**  If the unfolding is `Supported`, the
+    round trip succeeds and gives back the unfolding (≈, identical dynamic type): every
+    occurrence of a shared pointer comes back as a non-nil pointer to an equal value.  (The
+    sharing itself is not restored — the decoder allocates per occurrence; "deeply equal"
+    does not ask for it.) -/
+theorem sharing_roundtrip (ctx : Ctx) (J : JLayer) (hc : ctx.ok = true) (hJ : J.OK)
+    (v : LVal) (hs : Supported ctx J v.erase = true) :
+    ∃ is v', marshalL ctx J srcFacts v = .ok is ∧ unmarshalTop ctx J srcFacts is = .ok v'
+      ∧ v' ≈ v.erase ∧ v'.typeOf = v.erase.typeOf :=
+  roundtrip_partial ctx J hc hJ v.erase hs
+
 /-! ## non-vacuity: a concrete context, a concrete JSON layer, deep supported values -/
 
 /-- a JSON layer with kernel-reducible functions: payloads are their own JSON text; "!" is
@@ -191,6 +241,57 @@ example : rtSim Fall wNodeLeaf = true
 /-- a value the serialiser cannot represent fails loudly: NaN payload, unregistered struct -/
 example : enc ctxW Jid Fall (.basic (.basic "float64") "!") = .error .json := by decide
 example : enc ctxW Jid Fall (.ptr (.struct "Unregistered" .nil)) = .error .unknownType := by decide
+
+/-! ## struct-keyed maps, unregistered named basics, shared pointers: witnesses -/
+
+/-- `ctxW` plus a struct type used as a map key -/
+def ctxK : Ctx where
+  reg := ctxW.reg ++ [("w_key", .struct "Key")]
+  structs := ctxW.structs ++ [("Key", [("Tenant", tStr), ("Shard", tInt)])]
+
+/-- `map[Key]*int{{Tenant:"a"}: &1, {Shard:1}: nil, {}: &2}` with `omitempty` keys: every key
+    text omits a different set of fields -/
+def wKM : GoVal :=
+  .map (.struct "Key") (.ptr tInt) false
+    (.cons "{\"Tenant\":\"a\"}" (.ptr (iv "1")) (.cons "{\"Shard\":1}" (.nilptr tInt) (.cons "{}" (.ptr (iv "2")) .nil)))
+
+/-- a struct-keyed map is `Supported` and round-trips to itself: every key text is decoded on
+    its own, nothing of one key reaches the next -/
+theorem struct_keyed_map_roundtrips :
+    ctxK.ok = true ∧ Supported ctxK Jid wKM = true
+    ∧ (enc ctxK Jid srcFacts wKM >>= unmarshalTop ctxK Jid srcFacts) = .ok wKM := by decide
+
+/-- `type Topic string`, never registered, at the positions a checkpoint holds values in: top
+    level, behind a pointer, `any` slice element, `any` map value, `any` struct field.  Each
+    is refused with "unknown type" although `string` itself is registered. -/
+theorem unregistered_named_refused_everywhere :
+    let topic := GoVal.basic (.named "Topic" "string") "\"weather\""
+    keyOf ctxW (.basic "string") = some "_eino_string"
+    ∧ enc ctxW Jid srcFacts (.basic (.basic "string") "\"weather\"") = .ok (IS.basicN 0 0 "_eino_string" "\"weather\"")
+    ∧ enc ctxW Jid srcFacts topic = .error .unknownType
+    ∧ enc ctxW Jid srcFacts (.ptr (.ptr topic)) = .error .unknownType
+    ∧ enc ctxW Jid srcFacts (.slice .iface false (.cons (iv "1") (.cons topic .nil))) = .error .unknownType
+    ∧ enc ctxW Jid srcFacts (.map tStr .iface false (.cons "\"node\"" topic .nil)) = .error .unknownType
+    ∧ enc ctxW Jid srcFacts (.struct "Node" (.cons "V" (iv "1") (.cons "Next" (.nilptr (.struct "Node"))
+        (.cons "Tag" topic (.cons "Kids" (.slice (.ptr (.struct "Node")) true .nil)
+        (.cons "M" (.map (.named "Name" "string") .iface true .nil) .nil)))))) = .error .unknownType
+    ∧ enc ctxW Jid srcFacts (.slice (.named "Topic" "string") false .nil) = .error .unknownType := by decide
+
+/-- `p := &1; []*int{p, p}` and the pending inputs of two successors of one node
+    (`map[string]any{"a": d, "b": d}` with `d *int`): one identity, two occurrences -/
+def wShared : LVal :=
+  .slice (.ptr tInt) false (.cons (.ptr 7 (.basic tInt "1")) (.cons (.ptr 7 (.basic tInt "1")) .nil))
+def wFan : LVal :=
+  .map tStr .iface false (.cons "\"a\"" (.ptr 3 (.basic tInt "5")) (.cons "\"b\"" (.ptr 3 (.basic tInt "5")) .nil))
+
+/-- both occurrences of the shared pointer come back non-nil and equal in value -/
+theorem shared_pointer_twice_roundtrips :
+    wShared.coherent = true ∧ wShared.sharedCount = 1
+    ∧ (marshalL ctxW Jid srcFacts wShared >>= unmarshalTop ctxW Jid srcFacts)
+        = .ok (.slice (.ptr tInt) false (.cons (.ptr (iv "1")) (.cons (.ptr (iv "1")) .nil)))
+    ∧ wFan.coherent = true ∧ wFan.sharedCount = 1
+    ∧ (marshalL ctxW Jid srcFacts wFan >>= unmarshalTop ctxW Jid srcFacts)
+        = .ok (.map tStr .iface false (.cons "\"a\"" (.ptr (iv "5")) (.cons "\"b\"" (.ptr (iv "5")) .nil))) := by decide
 
 /-! ## known findings: in the listed universe, not Supported, loud error -/
 
